@@ -21,7 +21,8 @@ Inductive spec : Type :=
 | SpCombine (n : nat)
 | SpFlatten
 | SpShare
-| SpInterval.
+| SpInterval
+| SpTree.        (* a closed composition of crate operators over from_iter leaves (real crate only) *)
 
 Definition vnat (v : val) : nat := match v with VN x => x | VT _ => 0 end.
 
@@ -58,6 +59,7 @@ Definition op_of_spec (sp : spec) : op :=
   | SpFlatten => flatten_op
   | SpShare => share_op
   | SpInterval => interval_op
+  | SpTree => map_op (fun v => v)     (* no model: only the monitor is used *)
   end.
 
 (** the generator's guard: [g_share] is *not* imposed, so that the nested
@@ -79,7 +81,7 @@ Definition params_of_spec (sp : spec) (pull : bool) (nsk : nat) : mparams :=
      no_nest := match sp with SpFromIter _ _ => true | _ => false end;
      c14 := pull && match sp with
                     | SpFromIter _ _ | SpMap _ _ | SpFilter _ _ | SpScan _ _ | SpTake _
-                    | SpSkip _ | SpConcat _ | SpFlatten => true
+                    | SpSkip _ | SpConcat _ | SpFlatten | SpTree => true
                     | _ => false end |}.
 
 Definition run_spec (sp : spec) (pull : bool) (nsk : nat) (ms : list move)
@@ -121,6 +123,7 @@ Definition mspec_of_spec (sp : spec) : mspec :=
   | SpFlatten => MsFlatten
   | SpShare => MsShare
   | SpInterval => MsInterval
+  | SpTree => MsOther
   end.
 
 Definition smonitor_trace (sp : spec) (pull : bool) (nsk : nat) (tr : list event) : list sviol :=
